@@ -200,6 +200,91 @@ def run(write: bool = True) -> Extraction:
     return ex
 
 
+
+
+def gen_pitch(ex: Extraction, kp):
+    from kernpy.core import pitch_models as P, transposer as TR, gkern as G
+    body = []
+    body.append('def chromas : List (Str × Int) := ' + llist([f'({lstr(k)}, {lint(v)})' for k, v in P.Chromas.items()]))
+    body.append('def chromasByValue : List (Int × Str) := ' + llist([f'({lint(k)}, {lstr(v)})' for k, v in P.ChromasByValue.items()]))
+    body.append('def intervals : List (Int × Str) := ' + llist([f'({lint(k)}, {lstr(v)})' for k, v in TR.Intervals.items()]))
+    body.append('def intervalsByName : List (Str × Int) := ' + llist([f'({lstr(k)}, {lint(v)})' for k, v in TR.IntervalsByName.items()]))
+    body.append('def availableIntervals : List Str := ' + llist([lstr(k) for k in TR.AVAILABLE_INTERVALS]))
+    body.append('def pitches : List Str := ' + llist([lstr(k) for k in sorted(P.pitches)]))
+    body.append('def letterToSemitones : List (Str × Int) := ' + llist([f'({lstr(k)}, {lint(v)})' for k, v in TR.LETTER_TO_SEMITONES.items()]))
+    body.append('def gkernLetters : List Str := ' + llist([lstr(k) for k in G.LETTERS]))
+    body.append(f'def c4Octave : Int := {lint(P.HumdrumPitchImporter.C4_OCATAVE)}')
+    body.append(f'def c3Octave : Int := {lint(P.HumdrumPitchImporter.C3_OCATAVE)}')
+    body.append(f'def expC4Octave : Int := {lint(P.HumdrumPitchExporter.C4_OCATAVE)}')
+    body.append(f'def expC3Octave : Int := {lint(P.HumdrumPitchExporter.C3_OCATAVE)}')
+    body.append(f'def dirUp : Str := {lstr(P.Direction.UP.value)}')
+    body.append(f'def dirDown : Str := {lstr(P.Direction.DOWN.value)}')
+    # compute_position's local LETTER_TO_INDEX literal
+    t = parse('kernpy/core/gkern.py')
+    cp = find_def(t, 'PitchPositionReferenceSystem', 'compute_position')
+    l2i = None
+    if cp is not None:
+        for n in ast.walk(cp):
+            if isinstance(n, ast.Assign) and any(isinstance(tg, ast.Name) and tg.id == 'LETTER_TO_INDEX' for tg in n.targets):
+                try:
+                    l2i = ast.literal_eval(n.value)
+                except Exception:
+                    pass
+    if l2i is None:
+        ex.problem('gkern.compute_position: LETTER_TO_INDEX literal not found')
+        l2i = {}
+    body.append('def letterToIndex : List (Str × Int) := ' + llist([f'({lstr(k)}, {lint(v)})' for k, v in l2i.items()]))
+    # clefs: for every reachable (name, line) of ClefFactory.create_clef, the bottom line pitch
+    clefs = []
+    for enc in ['*clefG2', '*clefF3', '*clefF4', '*clefC1', '*clefC2', '*clefC3', '*clefC4']:
+        try:
+            c = G.ClefFactory.create_clef(enc)
+            bl = c.bottom_line()
+            clefs.append((enc[5:], bl.name, bl.octave))
+        except Exception as e:  # noqa
+            ex.problem(f'clef {enc}: {type(e).__name__}: {e}')
+    body.append('def clefBottom : List (Str × Str × Int) := ' + llist([f'({lstr(n)}, {lstr(b)}, {lint(o)})' for n, b, o in clefs]))
+    body.append(f'def lineChar : Str := {lstr(G.PositionInStaff.LINE_CHARACTER)}')
+    body.append(f'def spaceChar : Str := {lstr(G.PositionInStaff.SPACE_CHARACTER)}')
+    ex.files['Pitch.lean'] = wrap(body)
+    pm = parse('kernpy/core/pitch_models.py')
+    tr = parse('kernpy/core/transposer.py')
+    for path in (('AgnosticPitch', 'name'), ('AgnosticPitch', 'octave'), ('AgnosticPitch', 'get_chroma'), ('AgnosticPitch', 'accidentals'),
+                 ('AgnosticPitch', 'to_transposed'), ('HumdrumPitchImporter', 'import_pitch'), ('HumdrumPitchImporter', '_parse_pitch'),
+                 ('HumdrumPitchExporter', 'export_pitch'), ('PitchImporterFactory', 'create'), ('PitchExporterFactory', 'create')):
+        ex.fingerprints['pitch_models.' + '.'.join(path)] = fingerprint(find_def(pm, *path))
+    # the name property has getter+setter with the same name: fingerprint the whole class too
+    ex.fingerprints['pitch_models.AgnosticPitch'] = fingerprint(find_def(pm, 'AgnosticPitch'))
+    for fn in ('transpose', 'transpose_agnostics', 'transpose_encoding_to_agnostic', 'transpose_agnostic_to_encoding'):
+        ex.fingerprints['transposer.' + fn] = fingerprint(find_def(tr, fn))
+    for path in (('PositionInStaff',), ('PitchPositionReferenceSystem', 'compute_position'), ('ClefFactory', 'create_clef'),
+                 ('gkern_to_g_clef_pitch',), ('pitch_to_gkern_string',), ('GKernExporter',), ('Staff',)):
+        ex.fingerprints['gkern.' + '.'.join(path)] = fingerprint(find_def(t, *path))
+    # write sites of export_pitch (C16: exporting must not assign to the pitch it is given)
+    ep = find_def(pm, 'HumdrumPitchExporter', 'export_pitch')
+    sites = []
+    if ep is not None:
+        arg = ep.args.args[1].arg if len(ep.args.args) > 1 else 'pitch'
+        for n in ast.walk(ep):
+            tgts = []
+            if isinstance(n, ast.Assign):
+                tgts = n.targets
+            elif isinstance(n, (ast.AugAssign, ast.AnnAssign)):
+                tgts = [n.target]
+            for tg in tgts:
+                for sub in ast.walk(tg):
+                    if isinstance(sub, ast.Attribute) and isinstance(sub.value, ast.Name) and sub.value.id in (arg, 'self'):
+                        sites.append(f'{sub.value.id}.{sub.attr}')
+    else:
+        ex.problem('HumdrumPitchExporter.export_pitch not found')
+    body2 = ['def exportPitchWriteSites : List Str := ' + llist([lstr(s) for s in sites])]
+    ex.files['WriteSites.lean'] = wrap(body2)
+
+
+GENERATORS.append(gen_pitch)
+
+
+# ---- keep this block last
 if __name__ == '__main__':
     ex = run()
     print(json.dumps({'files': sorted(ex.files), 'problems': ex.problems, 'facts': ex.facts}, indent=1))
